@@ -91,4 +91,31 @@ CLAIMS = {
             "model's string byte for byte, and the spec decoder accepts it.",
             "Trusted: Lean kernel (axioms propext, Classical.choice, Quot.sound); hand model of helpers.rs (35 lines) tied by exact-string correspondence.",
             "Lean 4 symbolic proof (induction over lines) + exact-string differential check on all 40 sizes"),
+    "C12": ("proof",
+            "Lean 4 on the model of SvgBuilder: unescape(escape s) = s and the escaped href contains no quote or '<' for EVERY "
+            "image string (C12_unescape_escape, C12_escape_safe, by induction), rgba2hex = #rrggbb / #rrggbbaa, layers = the "
+            "shape()/shape_color() calls in order for every setter history (C12_layers, induction over the history). The "
+            "document-level statement is evaluated, not proved (partial): on every run Spec.SvgParse (an XML-subset recogniser "
+            "in Lean) reads the REAL rendering: well-formed, viewBox/background, per layer exactly one sub-path per dark module "
+            "in place, colours, one image element whose un-escaped href is the string. Defect found and fixed (href was not escaped).",
+            "Trusted: Lean kernel; hand model tied by byte-exact string correspondence; Spec.SvgParse as the reading of 'well-formed' and 'anchored at'.",
+            "Lean 4 inductive proofs on the SVG model + XML-subset recogniser in Lean run on real renderings + exact-string differential check"),
+    "C17": ("proof",
+            "Lean 4 on the model of src/wasm.rs, for EVERY content and EVERY history of option-setter calls with arbitrary "
+            "arguments: colour options always hold 4 bytes (C17_colour_invariant), the wasm layer adds no trap to the native "
+            "build (C17_no_wasm_traps), qr_svg = native SvgBuilder rendering of the mapped options / empty when not encodable "
+            "(C17_svg), qr = module values, each 0/1 (C17_qr, C17_qr_bits), partial image options handled (C17_partial_options). "
+            "Correspondence: wasm.rs compiled on the host; outputs byte-equal to the real native builders and to the model. "
+            "Two defects found and fixed (index panic on size-without-position; unwrap panics on malformed colours).",
+            "Trusted: Lean kernel; hand model of wasm.rs tied by exact correspondence; trap-freedom of the native build is C10 (partial). Not covered: wasm-bindgen glue, wasm32 widths.",
+            "Lean 4 invariant over setter histories + exact differential check of host-compiled wasm.rs against native builders"),
+    "C18": ("proof",
+            "Lean 4: on the regenerated image_placement graph (3 shapes x 40 versions, decide +kernel): frame side odd, "
+            "nondecreasing in the version, 5b < 2n, n - b >= 16, image side integer and <= b (C18_table); symbolic in the margin "
+            "and in exact dyadic overrides on the model of SvgBuilder::image: default frame origin = margin + (n-b)/2 on both axes "
+            "with the image centred (C18_default_frame), explicit position = frame centre (C18_position), explicit size/gap: "
+            "image = S, frame = S+2G or S+2G-1 (C18_size_gap). Correspondence: real attributes parsed to exact rationals, "
+            "exhaustive for defaults (40x3x17).",
+            "Trusted: Lean kernel; translator; f64 rounding and float formatting modelled as exact dyadics (validated by byte-exact comparison on dyadic inputs).",
+            "Lean 4 decide +kernel on regenerated frame table + symbolic dyadic arithmetic + exhaustive differential check of defaults"),
 }
